@@ -375,6 +375,8 @@ fn silence(w: &mut World, _ctx: &RunCtx, states: &mut Vec<u64>) -> Result<(), Vi
     let mut expiry: BTreeMap<usize, i64> = BTreeMap::new();
     let mut removed: BTreeMap<usize, bool> = BTreeMap::new();
     let mut prev_hk: BTreeMap<usize, i64> = BTreeMap::new();
+    // addresses with a handshake in progress at each observer before the current step
+    let mut pending_before: BTreeMap<usize, Vec<std::net::SocketAddr>> = BTreeMap::new();
     for i in 0..n {
         if i == s {
             continue;
@@ -401,7 +403,9 @@ fn silence(w: &mut World, _ctx: &RunCtx, states: &mut Vec<u64>) -> Result<(), Vi
         let now = w.node_now_s(i);
         let hk_ran = prev_hk.get(&i).copied() != Some(sn.next_housekeep);
         prev_hk.insert(i, sn.next_housekeep);
+        let pending_now: Vec<std::net::SocketAddr> = sn.pending.iter().map(|(a, _)| *a).collect();
         if removed.get(&i).copied().unwrap_or(false) {
+            pending_before.insert(i, pending_now);
             continue;
         }
         let present = sn.peers.iter().find(|p| p.addr == s_addr);
@@ -430,13 +434,17 @@ fn silence(w: &mut World, _ctx: &RunCtx, states: &mut Vec<u64>) -> Result<(), Vi
                 }
                 if by_timeout {
                     let dialled = st.sent.iter().any(|id| w.wire[*id].dst == s_addr && World::is_init_datagram(&w.wire[*id].data));
-                    if !dialled {
+                    // a handshake with that address that is already in progress (a stray first message opened one) counts:
+                    // the node does not start a second one next to it
+                    let in_progress = sn.pending.iter().any(|(a, _)| *a == s_addr) || pending_before.get(&i).map(|v| v.contains(&s_addr)).unwrap_or(false);
+                    if !dialled && !in_progress {
                         return Err(Violation::new("silent-peer-removed", "timed-out-peer-not-redialled", format!("n{} removed silent peer n{} without dialling it again", i, s)));
                     }
                     w.count("c15_redial_after_timeout");
                 }
             }
         }
+        pending_before.insert(i, pending_now);
     }
     for i in 0..n {
         if i != s && !removed.get(&i).copied().unwrap_or(false) {
